@@ -49,10 +49,23 @@ static void stub_split_out_input(struct upipe *upipe, struct uref *uref, struct 
 }
 static int stub_split_out_control(struct upipe *upipe, int command, va_list args) { return UBASE_ERR_NONE; }
 static struct upipe_ts_psi_split g_split; static struct upipe_ts_psi_split_sub g_sub[3];
+#ifndef LAZY
+#define LAZY (-1)
+#endif
+/* -DLAZY=k: output k has no sink yet; the application connects one when the output asks for it (need_output event):
+ * a matching section must still reach it */
+static int stub_probe_lazy(struct uprobe *uprobe, struct upipe *upipe, int event, va_list args)
+{
+    if (event == UPROBE_NEED_OUTPUT && LAZY >= 0 && upipe == &g_sub[LAZY >= 0 ? LAZY : 0].upipe && g_sub[LAZY >= 0 ? LAZY : 0].output == NULL) {
+        upipe_ts_psi_split_sub_set_output(upipe, &g_out[LAZY >= 0 ? LAZY : 0]);
+        return UBASE_ERR_NONE;
+    }
+    return stub_probe_throw(uprobe, upipe, event, args);
+}
 
 void h_split_input(void)
 {
-    vs_reset_all();
+    vs_reset_all(); gs_probe.uprobe_throw = stub_probe_lazy;
     VPIPE_INIT_MGR(g_omgr, 0x73706c30, NULL, stub_split_out_input, stub_split_out_control);
     /* the splitter and its outputs as their allocators leave them (built directly: static objects) */
     struct upipe *upipe = &g_split.upipe;
@@ -70,6 +83,7 @@ void h_split_input(void)
         s->urefcount.refcount = 1; s->urefcount.cb = stub_rc_cb;
         s->output = &g_out[k]; s->flow_def = vs_make_uref(true, k, 0); VASSUME(s->flow_def != NULL);
         s->output_state = UPIPE_HELPER_OUTPUT_VALID; ulist_init(&s->request_list);
+        if (k == LAZY) { s->output = NULL; s->output_state = UPIPE_HELPER_OUTPUT_NONE; }
         uchain_init(&s->uchain); ulist_add(&g_split.subs, &s->uchain);
     }
     VIN(uint64_t, marker); VIN(uint8_t, in_dict);
